@@ -96,7 +96,8 @@ class IPv6FlowSpec(NLRI):
             nlri_tmp += struct.pack('!B', type_tmp) + cls.construct_operators(data[type_tmp])
 
         if len(nlri_tmp) >= 240:
-            return struct.pack('!H', len(nlri_tmp)) + nlri_tmp
+            # a two-octet length is written as 0xfnnn (RFC 8955 section 4.1)
+            return struct.pack('!H', 0xf000 + len(nlri_tmp)) + nlri_tmp
         elif nlri_tmp:
             return struct.pack('!B', len(nlri_tmp)) + nlri_tmp
 
